@@ -407,6 +407,73 @@ def run_harness_leaks(binary, lines, leak_every=64, **kw):
     return results, faults, leaky
 
 
+def parallel_chunks(items, nchunks):
+    items = list(items)
+    if not items:
+        return []
+    nchunks = max(1, min(nchunks, len(items)))
+    size = (len(items) + nchunks - 1) // nchunks
+    return [items[i:i + size] for i in range(0, len(items), size)]
+
+
+def run_harness_parallel(binary, lines, nproc=None, leaks=True, line_for_chunk=None, **kw):
+    """Run the harness on `lines` split over nproc processes. `line_for_chunk(i, line)` may
+    rewrite a line per chunk (e.g. to give each process its own scratch file name).
+    Returns (results, faults, leaky_ids)."""
+    from concurrent.futures import ThreadPoolExecutor
+    nproc = nproc or NCPU
+    chunks = parallel_chunks(lines, nproc)
+    def work(args):
+        i, ch = args
+        if line_for_chunk:
+            ch = [line_for_chunk(i, ln) for ln in ch]
+        if leaks:
+            return run_harness_leaks(binary, ch, **kw)
+        r, f = run_harness(binary, ch, **kw)
+        return r, f, []
+    results, faults, leaky = {}, [], []
+    with ThreadPoolExecutor(max_workers=nproc) as ex:
+        for r, f, lk in ex.map(work, list(enumerate(chunks))):
+            results.update(r)
+            faults.extend(f)
+            leaky.extend(lk)
+    return results, faults, leaky
+
+
+def validate_traces(module, events, nproc=None, cfg=None, timeout=1500, heap="3g"):
+    """Trace validation: `events` is a list of executions (each a list of event dicts; a Reset
+    event is prepended to each). The executions are split over nproc TLC processes running the
+    deterministic trace spec `module`; every process prints one JSON report
+    {verdicts: [{l,id,e,why,detail}], stats, lines}. Returns (verdicts, stats, tlc_results)."""
+    from concurrent.futures import ThreadPoolExecutor
+    nproc = nproc or NCPU
+    chunks = parallel_chunks(events, nproc)
+    tdir = tempfile.mkdtemp(prefix="trace-", dir=scratch_root())
+    def work(args):
+        i, execs = args
+        path = os.path.join(tdir, "t%d.ndjson" % i)
+        with open(path, "w") as fh:
+            for ex_ in execs:
+                fh.write(json.dumps({"e": "Reset", "id": ex_[0].get("id", "")}) + "\n")
+                for ev in ex_:
+                    fh.write(json.dumps(ev) + "\n")
+        return run_tlc(module, cfg=cfg, workers=1, env={"TRACE": path}, timeout=timeout, heap=heap)
+    verdicts, stats, ress = [], {"execs": 0, "events": 0, "failed": 0}, []
+    try:
+        with ThreadPoolExecutor(max_workers=nproc) as ex:
+            for res in ex.map(work, list(enumerate(chunks))):
+                ress.append(res)
+                if res.error or res.rc != 0 or not res.cases:
+                    raise InfraError("trace validation with %s failed (rc=%s %s)\n%s" % (module, res.rc, res.error, res.out[-3000:]))
+                rep = res.cases[-1]
+                verdicts.extend(rep["verdicts"])
+                for k in stats:
+                    stats[k] += rep["stats"].get(k, 0)
+    finally:
+        shutil.rmtree(tdir, ignore_errors=True)
+    return verdicts, stats, ress
+
+
 # --------------------------------------------------------------------------------------
 # findings, evidence, verdict
 # --------------------------------------------------------------------------------------
@@ -432,6 +499,9 @@ class Check:
         self.known_hit = {}
         self.parts = {}
         self._distinct = set()
+        rdir = os.path.join(VERIF, "replays", pid)
+        if os.path.isdir(rdir):
+            shutil.rmtree(rdir, ignore_errors=True)
 
     def add_tlc(self, res):
         self.cov["states"] += res.distinct
